@@ -29,3 +29,39 @@ def v2_decode(data):
         return hx(_Packet.decode(data))
     except Exception as e:  # noqa
         return canon_exc(e)
+
+
+def v3_proto(key=None):
+    p = lan._LanProtocolV3()
+    p._local_key = key
+    return p
+
+
+def v3_enc_request(key, ctr, data):
+    """returns (outcome hex, pad bytes read back by decrypting the emitted packet)"""
+    p = v3_proto(key)
+    try:
+        pkt = p._encode_encrypted_request(ctr, data)
+    except Exception as e:  # noqa
+        return canon_exc(e), b""
+    pad = pkt[5] >> 4
+    plain = lan.Security.decrypt_aes_cbc(key, pkt[6:-32])
+    return hx(pkt), bytes(plain[len(plain) - pad:]) if pad else b""
+
+
+def v3_process(key, packet):
+    p = v3_proto(key)
+    try:
+        with memoryview(bytes(packet)) as mv:
+            return hx(p._process_packet(mv))
+    except Exception as e:  # noqa
+        return canon_exc(e)
+
+
+def v3_local_key(key, data):
+    p = v3_proto(None)
+    try:
+        with memoryview(bytes(data)) as mv:
+            return hx(p._get_local_key(key, mv))
+    except Exception as e:  # noqa
+        return canon_exc(e)
